@@ -13,3 +13,4 @@ import Scfg.Props.C11
 import Scfg.Props.C12
 import Scfg.Props.C15
 import Scfg.Props.C17
+import Scfg.Props.C08
